@@ -50,6 +50,7 @@ type Scenario struct {
 	// of databases
 	ViaHandle bool
 	DBs       int
+	RaceOnly  bool // run in the free-running -race pass only
 	Gen       bool // generated pair scenario (pairs.go): reported in aggregate
 }
 
@@ -418,10 +419,13 @@ type task struct {
 type result struct {
 	Schedules, Preemptive, MaxPoints int
 	Complete                         bool
-	Outcomes                         int
-	Viol                             []cviol
-	Sample                           string
-	AuditRuns, AuditLocked           int
+	// second box of a scenario whose preemption-bounded search hit the schedule cap
+	DevBound, DevSchedules int
+	DevComplete            bool
+	Outcomes               int
+	Viol                   []cviol
+	Sample                 string
+	AuditRuns, AuditLocked int
 }
 
 func obsKey(rs *runState) string {
@@ -503,7 +507,7 @@ func worker(tb []byte, progress func()) []byte {
 	outcomes := map[string]bool{}
 	seenSig := map[string]bool{}
 	n := 0
-	st := e.Explore(mk, func(in *explorer.Instance, out *explorer.Outcome) bool {
+	visit := func(in *explorer.Instance, out *explorer.Outcome) bool {
 		n++
 		if n%200 == 0 {
 			progress()
@@ -528,9 +532,22 @@ func worker(tb []byte, progress func()) []byte {
 			res.Sample = fmt.Sprintf("%s: schedule %v (%d preemptions): %s", sc.ID, out.Choices, out.Preempted, histString(cur.ops))
 		}
 		return true
-	})
+	}
+	st := e.Explore(mk, visit)
 	res.Schedules, res.Preemptive, res.MaxPoints = st.Schedules, st.Preemptive, st.MaxPoints
 	res.Complete = !st.Truncated
+	if st.Truncated && !sc.ViaHandle {
+		// the schedule cap cut the preemption-bounded search (with 3-4 threads the free choices at
+		// blocking points alone are too many): a second, complete box - every schedule with at most
+		// DevBound deviations from the default schedule (explorer.Deviations) - is explored as well
+		e2 := &explorer.Explorer{Bound: t.Bound, MaxSchedules: t.Max * 4, AutoAdvance: e.AutoAdvance, HorizonNs: e.HorizonNs, Deviations: true}
+		st2 := e2.Explore(mk, visit)
+		res.Schedules += st2.Schedules
+		res.Preemptive += st2.Preemptive
+		res.DevBound = t.Bound
+		res.DevComplete = !st2.Truncated
+		res.DevSchedules = st2.Schedules
+	}
 	res.Outcomes = len(outcomes)
 	b, _ := json.Marshal(res)
 	return b
@@ -884,6 +901,9 @@ func main() {
 		if !scMatches(sc, prop) {
 			continue
 		}
+		if sc.RaceOnly {
+			continue
+		}
 		if sc.ViaHandle {
 			// connection-level scenarios: deviation bound 2, split over 8 workers by first deviation
 			for sh := 0; sh < 8; sh++ {
@@ -969,6 +989,11 @@ func main() {
 				}
 				if !merged {
 					e := map[string]interface{}{"id": t.Scenario, "schedules": r.Schedules, "distinct_outcomes": r.Outcomes, "max_points": r.MaxPoints, "bound_completed": r.Complete, "shards": 1}
+					if r.DevBound > 0 {
+						e["second_box_deviation_bound"] = r.DevBound
+						e["second_box_schedules"] = r.DevSchedules
+						e["second_box_completed"] = r.DevComplete
+					}
 					if t.Of > 1 {
 						e["deviation_bound"] = t.Bound
 					}
